@@ -66,9 +66,9 @@ def gs_setup(ctx):
         cfg.d[prefix + dest] = (names + ["undeclared"])[which - 2]
     sections = {}
     for nm in names:
-        kind = ctx.choose(3, f"section[{nm}]")  # 0 absent, 1 a namespace of settings, 2 some other value
-        if kind == 1:
-            sections[nm] = Rec("Namespace", attrs={"of": nm})
+        kind = ctx.choose(4, f"section[{nm}]")  # 0 absent, 1 a namespace of settings, 2 some other value, 3 an empty namespace (a subcommand without options, or none given yet)
+        if kind in (1, 3):
+            sections[nm] = Rec("Namespace", attrs={"of": nm, "empty": kind == 3}, methods={"__bool__": lambda c, s_, a, k: not s_.attrs["empty"], "__len__": lambda c, s_, a, k: 0 if s_.attrs["empty"] else 1})
             cfg.d[prefix + nm] = sections[nm]
         elif kind == 2:
             cfg.d[prefix + nm] = 7
